@@ -107,16 +107,32 @@ func (bq *Queue[Q]) Run() {
 					bq.queue[old] = bq.nilQ
 				}
 			}
+			// The height is read without the lock, so the chain could move forward
+			// since then and the slot can be legitimately occupied by the element of
+			// the next lap (h+1+cacheSize), which must stay queued (lastQ counts it).
+			// An element of a previous lap is just garbage. Retry with a fresh height
+			// in both cases.
+			if b != bq.nilQ && b.GetIndex() != h+1 {
+				if b.GetIndex() <= h && bq.queue[pos] == b {
+					bq.queue[pos] = bq.nilQ
+					bq.len--
+				}
+				bq.queueLock.Unlock()
+				lastHeight = h
+				continue
+			}
 			bq.queueLock.Unlock()
 			lastHeight = h
 			if b == bq.nilQ {
 				break
 			}
 
+			var notAdded bool
 			err := bq.chain.AddItem(b)
 			if err != nil {
 				// The element might already be added by the consensus.
 				if bq.chain.Height() < b.GetIndex() {
+					notAdded = true
 					bq.log.Warn("queue: failed to add item into the blockchain",
 						zap.Uint32("index", b.GetIndex()),
 						zap.Uint32("chainHeight", bq.chain.Height()),
@@ -130,6 +146,11 @@ func (bq *Queue[Q]) Run() {
 			if bq.queue[pos] == b {
 				bq.queue[pos] = bq.nilQ
 				bq.len--
+			}
+			// The element is dropped, but it's still needed: don't let lastQ cover it,
+			// otherwise it won't be requested again.
+			if notAdded && bq.lastQ >= b.GetIndex() {
+				bq.lastQ = b.GetIndex() - 1
 			}
 			l := bq.len
 			bq.queueLock.Unlock()
